@@ -74,20 +74,34 @@ def reset():
 
 
 def free_consts(t, acc=None, seen=None):
-    """uninterpreted constants (0-ary, non-value) of a term, in order of first appearance"""
+    """maximal sub-terms of t that do not mention the bound variable K! (and are not literal values), in order of first
+    appearance: they become the arguments of the atom's prefix-sum function, so that e.g. the same summand at row i and at
+    row R-1 is the same function applied to different arguments"""
     acc = [] if acc is None else acc
     seen = set() if seen is None else seen
-    stack = [t]
-    while stack:
-        x = stack.pop()
-        if x.get_id() in seen:
-            continue
-        seen.add(x.get_id())
-        if z3.is_const(x) and x.decl().kind() == z3.Z3_OP_UNINTERPRETED:
-            if not x.eq(K):
+    has_k = {}
+
+    def mentions(x):
+        i = x.get_id()
+        if i not in has_k:
+            has_k[i] = x.eq(K) or any(mentions(c) for c in x.children())
+        return has_k[i]
+
+    def is_value(x):
+        return z3.is_int_value(x) or z3.is_rational_value(x) or z3.is_true(x) or z3.is_false(x) or z3.is_algebraic_value(x)
+
+    def walk(x):
+        if not mentions(x):
+            if is_value(x):
+                return
+            if x.get_id() not in seen:
+                seen.add(x.get_id())
                 acc.append(x)
-        else:
-            stack.extend(reversed(x.children()))
+            return
+        for c in x.children():
+            walk(c)
+
+    walk(t)
     return acc
 
 
